@@ -51,7 +51,7 @@ theorem C01_page_body_roundtrip (c : Writer.Col) (p : Writer.Page) (h : PageShap
   readDataPageV1_pageBody c p h cm dict
 
 -- non-vacuity: an OPTIONAL INT32 page with rows 5, null, 6
-example : PageShape ⟨"a", .int32, .optional, 0⟩
+example : PageShape ⟨"a", .int32, .optional, 0, none⟩
     { values := [[5, 0, 0, 0], [6, 0, 0, 0]], defs := [1, 0, 1], numValues := 3, numNulls := 1 } := by
   constructor
   · intro _; decide
@@ -67,7 +67,7 @@ example : PageShape ⟨"a", .int32, .optional, 0⟩
   · decide
 
 -- non-vacuity for REPEATED: a page holding the lists [5, 6] and [] (three entries)
-example : PageShape ⟨"l", .int32, .repeated, 0⟩
+example : PageShape ⟨"l", .int32, .repeated, 0, none⟩
     { values := [[5, 0, 0, 0], [6, 0, 0, 0]], defs := [1, 1, 0], reps := [0, 1, 0], numValues := 3, numNulls := 1 } := by
   constructor
   · intro _; decide
@@ -188,7 +188,7 @@ theorem C01_recOk_of_writer (c : Writer.Col) (codec : Nat) (r : Writer.PageRec)
 
 /-! ### non-vacuity -/
 
-def exCol : Writer.Col := ⟨"a", .int32, .optional, 0⟩
+def exCol : Writer.Col := ⟨"a", .int32, .optional, 0, none⟩
 def exP1 : Writer.Page := { values := [[5, 0, 0, 0], [6, 0, 0, 0]], defs := [1, 0, 1], numValues := 3, numNulls := 1 }
 def exP2 : Writer.Page := { values := [[9, 0, 0, 0]], defs := [1], numValues := 1, numNulls := 0 }
 def exR1 := Writer.pageRecOf D 1 exCol exP1
